@@ -172,7 +172,7 @@ struct C02 : Prop {
 					t += (int) r.range(0, 4000);
 					e.set("at_us", t); e.set("raw", hex_of(bytes)); if (inj) e.set("inj", inj);
 					if (r.chance(400)) e.set("gap_us", (int) r.range(1, 6000));
-					if (r.chance(400) && bytes.size() > 1) { e.set("split_at", (int) r.below(bytes.size())); e.set("split_gap_us", (int) r.range(1000, 30000)); }
+					if (r.chance(400) && bytes.size() > 1) { e.set("split_at", (int) r.below(bytes.size())); e.set("split_gap_us", r.chance(150) ? (int) r.range(100000, 400000) : (int) r.range(1000, 30000)); }      // (now and then the line falls silent inside a packet for a tenth of a second and more)
 					ev.push(e);
 				}
 				ph.set("bus", ev);
